@@ -222,12 +222,17 @@ impl MeasurementErrorEstimator {
     }
 
     fn measurement_variance(&self, config: &KalmanConfiguration) -> f64 {
+        // A run of identical samples has zero spread.  A measurement noise of exactly
+        // zero makes the innovation covariance singular once the state uncertainty has
+        // collapsed too, and the Kalman gain becomes 0/0.
+        const MIN_MEASUREMENT_VARIANCE: f64 = 1e-24;
+
         if self.fill < config.difference_estimation_boundary {
             sqr(config.steer_time.seconds())
         } else if self.fill < config.statistical_estimation_boundary {
-            sqr(self.range_size())
+            sqr(self.range_size()).max(MIN_MEASUREMENT_VARIANCE)
         } else {
-            self.variance() / 2.0
+            (self.variance() / 2.0).max(MIN_MEASUREMENT_VARIANCE)
         }
     }
 
